@@ -54,9 +54,9 @@ WATCHDOG = {"quick": 600, "thorough": 3000}
 
 def plan(tier):
     if tier == "thorough":
-        return [{"variant": "plain", "workers": 10, "cases": 8000, "name": "plain"},
-                {"variant": "asan", "workers": 3, "cases": 1000, "name": "asan"},
-                {"variant": "guard", "workers": 3, "cases": 1500, "name": "guard"}]
+        return [{"variant": "plain", "workers": 10, "cases": 12000, "name": "plain"},
+                {"variant": "asan", "workers": 3, "cases": 1500, "name": "asan"},
+                {"variant": "guard", "workers": 3, "cases": 2200, "name": "guard"}]
     return [{"variant": "plain", "workers": 5, "cases": 800, "name": "plain"},
             {"variant": "asan", "workers": 1, "cases": 150, "name": "asan"},
             {"variant": "guard", "workers": 1, "cases": 300, "name": "guard"}]
@@ -140,7 +140,7 @@ def run(ctx):
         for (i, j) in pick:
             v = rval(rng, tc, 0.2)
             if style == "explicit-zero" and rng.random() < 0.4:
-                v = v * 0 if v == v and abs(v) != float("inf") else (0.0 if tc == "d" else 0j)
+                v = 0.0 if tc == "d" else 0j
             trip.append((i, j, v))
         if any(t[2] == 0 for t in trip):
             ctx.count("c20.sparse.explicit-zero")
